@@ -1368,7 +1368,7 @@ theorem init_inv (n : Nat) : EInv (init n) := by
 theorem storeAt_end (l : List Cmd) (c : Cmd) : storeAt l l.length c = l ++ [c] := by
   simp [storeAt]
 
-theorem step_inv (q : Q) (a : Actor) (hi : EInv q) : EInv (step true true q a) := by
+theorem step_inv (q : Q) (a : Actor) (hi : EInv q) : EInv (step true true true q a) := by
   cases a with
   | io =>
     unfold step
@@ -1522,12 +1522,12 @@ theorem step_inv (q : Q) (a : Actor) (hi : EInv q) : EInv (step true true q a) :
           have := hi.dom c hc
           simpa [setThr] using this
 
-theorem run_inv : ∀ (as : List Actor) (q : Q), EInv q → EInv (run true true q as)
+theorem run_inv : ∀ (as : List Actor) (q : Q), EInv q → EInv (run true true true q as)
   | [], _, h => h
   | a :: as, q, h => run_inv as _ (step_inv q a h)
 
 /-- the number of sender threads never changes -/
-theorem step_thr_length (l sl : Bool) (q : Q) (a : Actor) : (step l sl q a).thr.length = q.thr.length := by
+theorem step_thr_length (l sl wb : Bool) (q : Q) (a : Actor) : (step l sl wb q a).thr.length = q.thr.length := by
   cases a with
   | io => unfold step; simp only; repeat' split
           all_goals rfl
@@ -1545,9 +1545,9 @@ theorem step_thr_length (l sl : Bool) (q : Q) (a : Actor) : (step l sl q a).thr.
       | readEnd p => simp [setThr]
       | stored => simp [setThr]
 
-theorem run_thr_length (l sl : Bool) : ∀ (as : List Actor) (q : Q), (run l sl q as).thr.length = q.thr.length
+theorem run_thr_length (l sl wb : Bool) : ∀ (as : List Actor) (q : Q), (run l sl wb q as).thr.length = q.thr.length
   | [], _ => rfl
-  | a :: as, q => by rw [run, run_thr_length l sl as, step_thr_length]
+  | a :: as, q => by rw [run, run_thr_length l sl wb as, step_thr_length]
 
 end Enq
 
